@@ -432,6 +432,11 @@ def case_union(ctx, rng):
             if len(members) == n:
                 break
         ctx.count("st.union.sibling_containers")
+    if rng.random() < 0.06:
+        # a dataclass next to containers of class specs: the failing dataclass attempt must leave the specs (and their
+        # dict_kwargs) as they were for the member after it, at parse time and when the result is validated
+        members = [rng.choice(G.DATACLASSES), rng.choice([G.dict_t(G.CLASS_T), G.list_t(G.CLASS_T)])] + ([G.INT] if rng.random() < 0.5 else [])
+        ctx.count("st.union.dataclass_next_to_class_containers")
     if len(members) < 2:
         return
     perms = list(itertools.permutations(range(len(members))))
@@ -486,7 +491,9 @@ def case_union(ctx, rng):
             first_rej = unions[i_rej].children[0].kind
             sig = f"d/order-dependent/{channel}/{vclass}/rejecting-order-starts-with-{first_rej}"
             ctx.violation("union", sig, dict(members=[m.skel for m in members], value=v, accepting=unions[i_acc].skel, rejecting=unions[i_rej].skel, error=outs[i_rej].brief()))
-        elif acc[0] != disj:
+        elif acc[0] != disj and not any(m.kind == "dataclass" for m in members):
+            # (a dataclass as the whole type of an argument is expanded into options of its own: a single-member parser
+            # does not stand for the member inside a Union)
             sig = f"d/{'accepted-but-no-member-accepts' if acc[0] else 'rejected-although-member-accepts'}/{channel}/{vclass}/{mkinds}"
             which = [m.skel for m, o in zip(members, single) if o.accepted]
             ctx.violation("union", sig, dict(members=[m.skel for m in members], value=v, members_accepting=which, union_outcome=outs[0].brief()))
